@@ -195,4 +195,25 @@ Fixpoint is_ttml_subtitling (ds : list t) : bool :=
       else is_ttml_subtitling rest
   end.
 
+(* nested module: `Import PmtDesc` does not bring these names into scope *)
+Module Consts.
+(* ---- exported constants of psi/pmtdescriptor.go and psi/pmtelementarystream.go, in source order (coverage: notes/coverage.md) ---- *)
+Definition AUDIO_UNDEFINED : N := 0.
+Definition AUDIO_CLEAN_EFFECTS : N := 1.
+Definition AUDIO_HEARING_IMPAIRED : N := 2.
+Definition AUDIO_DESCRIPTION : N := 3.
+Definition AUDIO_PRIMARY : N := 128.
+Definition AUDIO_NATIVE : N := 129.
+Definition TTML_PURPOSE_SAME_LANG_DIALOGUE : N := 0.
+Definition TTML_PURPOSE_OTHER_LANG_DIALOGUE : N := 1.
+Definition TTML_PURPOSE_ALL_DIALOGUE : N := 2.
+Definition TTML_PURPOSE_HARD_OF_HEARING : N := 16.
+Definition TTML_PURPOSE_OTHER_LANG_DIALOGUE_WITH_HARD_OF_HEARING : N := 17.
+Definition TTML_PURPOSE_ALL_DIALOGUE_WITH_HARD_OF_HEARING : N := 18.
+Definition TTML_PURPOSE_AUDIO_DESCRIPTION : N := 48.
+Definition TTML_PURPOSE_CONTENT_RELATED_COMMENTARY : N := 49.
+Definition exported_consts : list N :=
+  [VIDEO_STREAM; AUDIO_STREAM; REGISTRATION; CONDITIONAL_ACCESS; LANGUAGE; SYSTEM_CLOCK; DOLBY_DIGITAL; COPYRIGHT; MAXIMUM_BITRATE; AVC_VIDEO; STREAM_IDENTIFIER; EXTENSION; SCTE_ADAPTATION; DOLBY_VISION; EBP; EC3; AUDIO_UNDEFINED; AUDIO_CLEAN_EFFECTS; AUDIO_HEARING_IMPAIRED; AUDIO_DESCRIPTION; AUDIO_PRIMARY; AUDIO_NATIVE; TTML_DESC_TAG_EXTENSION; TTML_PURPOSE_SAME_LANG_DIALOGUE; TTML_PURPOSE_OTHER_LANG_DIALOGUE; TTML_PURPOSE_ALL_DIALOGUE; TTML_PURPOSE_HARD_OF_HEARING; TTML_PURPOSE_OTHER_LANG_DIALOGUE_WITH_HARD_OF_HEARING; TTML_PURPOSE_ALL_DIALOGUE_WITH_HARD_OF_HEARING; TTML_PURPOSE_AUDIO_DESCRIPTION; TTML_PURPOSE_CONTENT_RELATED_COMMENTARY; BitsPerByte; MaxBitRateBytesPerSecond].
+End Consts.
+
 End PmtDesc.
